@@ -100,6 +100,26 @@ class SourceTree:
             i += 1
         return node
 
+    def def_consts(self, rel):
+        """Cython compile-time `DEF NAME = literal` constants of a file (the parser substitutes them in the code;
+        contracts may refer to them by name)."""
+        import re
+        path = self.abspath(rel)
+        out = {}
+        if not path.endswith('.py'):
+            try:
+                with open(path, encoding='utf8') as f:
+                    for line in f:
+                        m = re.match(r'^DEF\s+(\w+)\s*=\s*(.+?)\s*(#.*)?$', line)
+                        if m:
+                            try:
+                                out[m.group(1)] = ast.literal_eval(m.group(2))
+                            except Exception:
+                                pass
+            except OSError:
+                pass
+        return out
+
     def module_consts(self, rel):
         """Module-level simple assignments name -> ast expr (incl. cdef typed initialisers)."""
         mod = self.module(rel)
